@@ -956,7 +956,7 @@ def run(ck: core.Check):
     tasks = ([(ck.seed, i, "oracle") for i in range(n_oracle)] + [(ck.seed, 10**6 + i, "naming") for i in range(n_naming)]
              + [(ck.seed, 2 * 10**6 + i, "hist") for i in range(n_hist)]
              + [(ck.seed, 3 * 10**6 + i, tmode) for i in range(n_typed)])
-    results = L.robust_map(case_worker, tasks, min(14, mp.cpu_count()), core.WORK)
+    results = L.robust_map(case_worker, tasks, min(14, mp.cpu_count()), core.WORK, stall_timeout=900)
     # a case on which the worker process died (C++ abort inside a third-party judge): judged again without
     # loading it into onnxruntime; recorded in the evidence
     died = [i for i, r in enumerate(results) if r.get("died")]
@@ -969,7 +969,8 @@ def run(ck: core.Check):
     # (the native judges run in children of the worker: a worker that still dies was killed inside `spox.build`
     #  itself or stalled - neither a returned valid model nor an exception)
     for i in died:
-        if results[i].get("died"):
+        # (exit code -9 = killed by the pool for not answering within 15 min on an overloaded machine: no verdict)
+        if results[i].get("died") and "exit code -9" not in str(results[i].get("crash")):
             ck.failure("process-aborted", f"the process handling generated case {list(tasks[i])} died or stalled "
                                           "(native crash inside build?)", {"task": list(tasks[i])})
     # hand-written adversarial seeds always run (in-process)
